@@ -39,6 +39,7 @@ type Node struct {
 	outputReader *os.File
 	scriptFile   *os.File
 	scriptArg    string // script path appended to the step's args by the previous attempt
+	executing    bool   // the step's command has been started and has not returned yet
 	done         bool
 }
 
@@ -141,7 +142,9 @@ func (n *Node) Execute(ctx context.Context) error {
 			close(captured)
 		}()
 	}
+	n.setExecuting(true)
 	n.SetError(cmd.Run())
+	n.setExecuting(false)
 	if n.outputReader != nil && n.data.Step.Output != "" {
 		util.LogErr("close pipe writer", n.outputWriter.Close())
 		<-captured
@@ -155,6 +158,18 @@ func (n *Node) Execute(ctx context.Context) error {
 	}
 
 	return n.data.State.Error
+}
+
+func (n *Node) setExecuting(v bool) {
+	n.mu.Lock()
+	defer n.mu.Unlock()
+	n.executing = v
+}
+
+func (n *Node) isExecuting() bool {
+	n.mu.RLock()
+	defer n.mu.RUnlock()
+	return n.executing
 }
 
 func (n *Node) finish() {
@@ -262,7 +277,10 @@ func (n *Node) signal(sig os.Signal, allowOverride bool) {
 	n.mu.Lock()
 	defer n.mu.Unlock()
 	status := n.data.State.Status
-	if status == NodeStatusRunning && n.cmd != nil {
+	// The first stop signal marks the node as canceled; a command that
+	// ignores it is still executing and must get the later signals (the
+	// repeated one, and SIGKILL after the clean-up time) as well.
+	if (status == NodeStatusRunning || n.executing) && n.cmd != nil {
 		sigsig := sig
 		if allowOverride && n.data.Step.SignalOnStop != "" {
 			sigsig = unix.SignalNum(n.data.Step.SignalOnStop)
